@@ -5,9 +5,10 @@ Import ListNotations.
 Open Scope Q_scope.
 
 (* witness: two a-events within tbin of the same single b-event are both paired with it *)
-Definition wit_tsa : list Q := [0; 1 # 20; 103 # 10; 207 # 10].
-Definition wit_tsb : list Q := [1 # 50; 103 # 10; 207 # 10].
+(* ticks of 10 ms: tsa = 0, 0.05, 10.3, 20.7 s; tsb = 0.02, 10.3, 20.7 s; tbin = 0.1 s *)
+Definition wit_tsa : list Z := [0; 5; 1030; 2070]%Z.
+Definition wit_tsb : list Z := [2; 1030; 2070]%Z.
 
 Lemma first_pass_dup_witness :
-  first_pass (1 # 10) 0 wit_tsa wit_tsb = [0; 0; 1; 2]%Z.
+  first_pass 10 0 wit_tsa wit_tsb = [0; 0; 1; 2]%Z.
 Proof. vm_compute. reflexivity. Qed.
